@@ -29,6 +29,24 @@ func use() {
 """
 
 
+IGN_SRC = """package ig
+
+import "m/d"
+
+func multi(p *d.T) {
+	// @ignore IMM01, CTOR01
+	p.X, _ = 1, d.T{X: 2}
+	_ = d.T{X: 3} // @ignore ctor01 , imm
+	p.X = 4 // @ignore CTOR01, IMM01
+}
+
+// @ignore TONL, PKGO02
+func multi2() int {
+	return d.TF(5) + d.PF(6)
+}
+"""
+
+
 def probe():
     src, where = gen_all.use_file("p", "p/a.go")
     src2, _ = gen_all.use_file("w", "w/a.go")
@@ -41,8 +59,9 @@ def probe():
         {"path": "m/w", "name": "w", "files": [{"name": "w/a.go", "src": src2}]},
         {"path": "m/xtestdatax", "name": "q", "files": [{"name": "xtestdatax/q.go", "src": TD_SRC}]},
         {"path": "m/zzgen", "name": "g", "files": [{"name": "zzgen/g.go", "src": GEN_SRC}]},
+        {"path": "m/ig", "name": "ig", "files": [{"name": "ig/ig.go", "src": IGN_SRC}]},
     ]}
-    cls = {"w/a.go": "regular2", "p/a.go": "regular", "p/a_test.go": "test", "xtestdatax/q.go": "tdpath", "zzgen/g.go": "genpath"}
+    cls = {"w/a.go": "regular2", "p/a.go": "regular", "p/a_test.go": "test", "xtestdatax/q.go": "tdpath", "zzgen/g.go": "genpath", "ig/ig.go": "ignored"}
     return prog, cls
 
 
